@@ -310,6 +310,39 @@ fn cmd_campaign(m: BTreeMap<String, String>) -> i32 {
     })
 }
 
+/// Run the C09 validator on a font file (diagnostic aid; not used by the checks).
+fn cmd_validate(m: BTreeMap<String, String>) -> i32 {
+    let Some(path) = m.get("file") else {
+        eprintln!("validate: --file FILE required");
+        return 2;
+    };
+    let bytes = match std::fs::read(path) {
+        Ok(b) => b,
+        Err(e) => {
+            eprintln!("HARNESS-ERROR {}", e);
+            return 2;
+        }
+    };
+    util::install_hook();
+    let mut probs = Vec::new();
+    let n = sfnt_check::validate_container(&bytes, &mut probs).and_then(|tables| {
+        tables
+            .iter()
+            .find(|t| t.tag == allsorts::tag::CFF)
+            .and_then(|t| sfnt_check::check_cff_counts(t.data, None, &mut probs))
+    });
+    println!("cff charstrings: {:?}", n);
+    let w = exec::Written {
+        bytes,
+        kind: exec::WrittenKind::Sfnt,
+        glyphs: None,
+    };
+    for (k, v) in sfnt_check::validate(&w, true, true) {
+        println!("{}: {}", k, v);
+    }
+    0
+}
+
 fn main() {
     let args: Vec<String> = std::env::args().collect();
     if args.len() < 2 {
@@ -321,6 +354,7 @@ fn main() {
         "run" => cmd_run(m),
         "gen" => cmd_gen(m),
         "campaign" => cmd_campaign(m),
+        "validate" => cmd_validate(m),
         _ => {
             eprintln!("unknown command {}", args[1]);
             2
